@@ -56,7 +56,7 @@ template <size_t N> struct Runner : Any {
         Ev e("S"); e.str("op", name.c_str()).ints("src", std::vector<long long>(src.begin(), src.end())).i("n", n); observe(e, o(), mem); e.end();
     }
 };
-static Any *make(int N) { switch (N) { case 1: return new Runner<1>(); case 2: return new Runner<2>(); case 3: return new Runner<3>(); case 4: return new Runner<4>(); case 7: return new Runner<7>(); case 8: return new Runner<8>(); case 255: return new Runner<255>(); case 256: return new Runner<256>(); case 300: return new Runner<300>(); default: return new Runner<16>(); } }
+static Any *make(int N) { switch (N) { case 1: return new Runner<1>(); case 2: return new Runner<2>(); case 3: return new Runner<3>(); case 4: return new Runner<4>(); case 7: return new Runner<7>(); case 8: return new Runner<8>(); case 255: return new Runner<255>(); case 65535: return new Runner<65535>(); case 65536: return new Runner<65536>(); case 65537: return new Runner<65537>(); case 256: return new Runner<256>(); case 300: return new Runner<300>(); default: return new Runner<16>(); } }
 int main(int argc, char **argv) {
     Any *cur = 0;
     return run(argc, argv, [&](const std::vector<std::string> &t) {
